@@ -43,6 +43,9 @@ func c01Eval(c *Config, t TreeCase) string {
 		if !bytes.Equal(b1, b2) {
 			return fmt.Sprintf("api: re-serialisation differs: first %x second %x", b1, b2)
 		}
+		if wb, err := WireViaWriteTo(m2); err != nil || !bytes.Equal(wb, b1) {
+			return fmt.Sprintf("api: bytes written by WriteTo (after an unrelated write reused the serialisation buffer) differ from Serialize() at byte %d (err %v)", firstDiff(wb, b1), err)
+		}
 		// direction 2: reference wire image -> API -> wire
 		w := refcodec.EncodeMessage(t.Hdr, atoms.RefNodes(t.Tree))
 		m3, err := diam.ReadMessage(bytes.NewReader(w), c.A.D.P)
